@@ -39,7 +39,7 @@ ASSUMPTIONS = ["every variable of the rule occurs in the head", "no falsy field 
 @dataclass(eq=False)
 class V3:
     f1: Any = None
-    f2: Any = None
+    f2: Any = "default-of-f2"      # a non-None default: an argument whose VALUE is None must still arrive as None
     f3: Any = None
 
 
